@@ -1,6 +1,9 @@
 """C18 — write-time validation is all-or-nothing and never poisons a shard.
 Lean: SedpackProps/C18.lean (reject_no_trace, counts_exclude_rejected, pinned-order witnesses)."""
 from __future__ import annotations
+import collections, json, shutil
+from pathlib import Path
+from harness.core import lean, sp, child
 from harness.checks import fill_common as F
 
 ASSUMPTIONS = ["a write 'violates the declared shape' when np.array(value).shape differs from the declared shape of a fixed-size attribute, "
@@ -50,8 +53,166 @@ def oracle(ctx, c):
             return
 
 
+# ------------------------------------------------------------------------------------------------
+# writer level: M-WRITER vs the three real shard writers, call by call
+# ------------------------------------------------------------------------------------------------
+W_ATTRS = {"fb": [("a", "int32", (2,)), ("b", "float32", (3,)), ("c", "uint8", ())],
+           "npz": [("a", "int32", (2,)), ("v", "bytes", ()), ("b", "float32", (3,))],
+           "tfrec": [("a", "int32", (2,)), ("v", "bytes", ()), ("b", "float32", (3,))]}
+
+
+def _value(np, fmt, dtype, shape, kind, payload):
+    """A value of the given defect kind carrying `payload`; returns (value | MISSING, shapeOk, encOk)."""
+    if kind == "missing":
+        return None, None, None
+    if dtype == "bytes":
+        return str(payload).encode(), True, True           # variable size: neither shape nor dtype is checked
+    shape_ok = kind not in ("shape", "shape+enc")
+    enc_bad = kind in ("enc", "shape+enc")
+    shp = shape if shape_ok else tuple(shape) + (2,)
+    if enc_bad:
+        # what the format's own encoder refuses: a float64 / text value for an integer attribute, text for a float attribute
+        if np.dtype(dtype).kind in "iu":
+            v = np.full(shp, payload + 0.5, dtype=np.float64)
+        else:
+            v = np.full(shp, "x" + str(payload), dtype=object) if fmt == "tfrec" else np.full(shp, payload, dtype=np.complex128)
+    else:
+        v = np.full(shp, payload, dtype=dtype)
+    return v, shape_ok, not enc_bad
+
+
+def writer_runs(args):
+    """(child) drive each real shard writer directly, observing its buffer after every call."""
+    sp.sedpack()
+    np = sp.np
+    from sedpack.io import Attribute, DatasetStructure
+    from sedpack.io.shard.shard_writer_np import ShardWriterNP
+    from sedpack.io.shard.shard_writer_flatbuffer import ShardWriterFlatBuffer
+    from sedpack.io.shard.shard_writer_tfrec import ShardWriterTFRec
+    from sedpack.io.npz import IterateShardNP
+    from sedpack.io.flatbuffer import IterateShardFlatBuffer
+    from sedpack.io.tfrec import IterateShardTFRec
+    out = []
+    for a in args:
+        fmt = a["fmt"]
+        attrs = W_ATTRS[fmt]
+        A = [Attribute(name=n, dtype=d, shape=s) for n, d, s in attrs]
+        st = DatasetStructure(saved_data_description=A, compression="", examples_per_shard=1000, shard_file_type=fmt)
+        root = Path(a["root"]); shutil.rmtree(root, ignore_errors=True); root.mkdir(parents=True)
+        f = root / ("shard." + fmt)
+        W = {"npz": ShardWriterNP, "fb": ShardWriterFlatBuffer, "tfrec": ShardWriterTFRec}[fmt](dataset_structure=st, shard_file=f)
+        steps, model_exs = [], []
+        for ei, kinds in enumerate(a["exs"]):
+            vals, mex = {}, []
+            for (n, d, s), kind in zip(attrs, kinds):
+                payload = (ei * 7 + len(mex)) % 100 + 1
+                v, sok, eok = _value(np, fmt, d, s, kind, payload)
+                if v is None:
+                    mex.append(None)
+                else:
+                    vals[n] = v
+                    if fmt == "npz": eok = True                      # npz does not enforce the dtype
+                    mex.append([bool(sok), bool(eok), payload])
+            model_exs.append(mex)
+            try:
+                W.write(values=vals); outc = "ok"
+            except Exception as e:  # noqa: BLE001
+                outc = f"rejected:{type(e).__name__}"
+            if fmt == "npz":
+                state = {"cols": [len(W._buffer.get(n, [])) for n, _, _ in attrs]}
+            elif fmt == "fb":
+                state = {"examples": len(W._examples)}
+            else:
+                state = {"opened": W._tf_shard_writer is not None, "file": f.exists()}
+            steps.append(dict(state, out=outc))
+        decoded = None
+        n_ok = sum(1 for x in steps if x["out"] == "ok")
+        try:
+            if n_ok or fmt != "tfrec":
+                W.close()
+            if f.exists():
+                it = {"npz": IterateShardNP, "fb": IterateShardFlatBuffer, "tfrec": IterateShardTFRec}[fmt](dataset_structure=st, process_record=None)
+                decoded = []
+                for e in it.iterate_shard(f):
+                    row = []
+                    for n, d, s in attrs:
+                        x = e[n]
+                        if d == "bytes":
+                            if isinstance(x, np.ndarray): x = x.item()
+                            row.append(int(bytes(x).decode()))
+                        else:
+                            row.append(int(float(np.asarray(x).reshape(-1)[0])))
+                    decoded.append(row)
+            else:
+                decoded = []
+        except Exception as e:  # noqa: BLE001
+            decoded = f"{type(e).__name__}: {str(e)[:120]}"
+        out.append({"case": {k: a[k] for k in a if k != "root"}, "attrs_variable": [d == "bytes" and s == () for _, d, s in attrs], "model_exs": model_exs,
+                    "steps": steps, "decoded": decoded, "file_exists": f.exists()})
+        shutil.rmtree(root, ignore_errors=True)
+    return out
+
+
+def writer_level(ctx):
+    rng = ctx.rng("c18-writers")
+    cases = []
+    for fmt in ("fb", "npz", "tfrec"):
+        k = len(W_ATTRS[fmt])
+        for i in range(ctx.pick(14, 80)):
+            exs = []
+            for _ in range(rng.choice([1, 2, 3, 5, 8])):
+                kinds = ["ok"] * k
+                r = rng.random()
+                if r < 0.45:
+                    j = rng.randrange(k)                 # which attribute is wrong: first, middle, last
+                    kinds[j] = rng.choice(["missing", "shape", "enc", "shape+enc"])
+                    if rng.random() < 0.2:
+                        kinds[rng.randrange(k)] = rng.choice(["missing", "shape", "enc"])
+                exs.append(kinds)
+            if i % 5 == 0: exs[0][rng.randrange(k)] = rng.choice(["missing", "shape", "enc"])       # the very first call is rejected
+            cases.append({"root": str(ctx.scratch / f"c18w_{fmt}_{i}"), "fmt": fmt, "exs": exs})
+    res = child.call("harness.checks.c18", "writer_runs", cases, timeout=900)
+    reps = lean.driver([{"m": "writer", "fmt": r["case"]["fmt"], "attrs": r["attrs_variable"], "exs": r["model_exs"]} for r in res])
+    corr_bad, kinds_seen = [], collections.Counter()
+    for r, rep in zip(res, reps):
+        fmt = r["case"]["fmt"]
+        for kinds in r["case"]["exs"]:
+            for kd in kinds: kinds_seen[kd] += 1
+        acc_rows = [[v[2] for v in mex] for mex, stp in zip(r["model_exs"], r["steps"]) if stp["out"] == "ok" and all(v is not None for v in mex)]
+        # oracle (model independent): what the reader decodes is exactly the accepted examples; no file for a shard that stayed empty (tfrec)
+        if isinstance(r["decoded"], str) or r["decoded"] != acc_rows:
+            ctx.report({"kind": "writer-trace", "format": fmt}, f"{fmt} writer: after the calls {[s['out'] for s in r['steps']]} the shard decodes to {r['decoded']} instead of the accepted examples {acc_rows}",
+                       {"case": r["case"], "steps": r["steps"], "decoded": r["decoded"]})
+            continue
+        if fmt == "tfrec" and not acc_rows and r["file_exists"]:
+            ctx.report({"kind": "orphan-file", "format": fmt, "level": "writer"}, "tfrec writer: a shard file exists although every example was rejected", {"case": r["case"], "steps": r["steps"]})
+            continue
+        # correspondence with M-WRITER, call by call
+        if "error" in rep:
+            corr_bad.append({"case": r["case"], "model": rep}); continue
+        for k_, (si, mi) in enumerate(zip(r["steps"], rep["steps"])):
+            same = (si["out"] == "ok") == (mi["out"] == "ok")
+            if fmt == "npz": same = same and si["cols"] == mi["cols"]
+            elif fmt == "fb": same = same and si["examples"] == mi["examples"]
+            else: same = same and si["opened"] == mi["opened"] and si["file"] == mi["opened"]
+            if not same:
+                corr_bad.append({"case": r["case"], "call": k_, "impl": si, "model": mi}); break
+        else:
+            if rep["decoded"] != r["decoded"]:
+                corr_bad.append({"case": r["case"], "impl_decoded": r["decoded"], "model_decoded": rep["decoded"]})
+    if corr_bad and not ctx.violations:
+        ctx.report({"kind": "correspondence", "level": "writer"}, f"M-WRITER no longer predicts the writers' buffers call by call: {json.dumps(corr_bad[0])[:300]}",
+                   {"correspondence": "M-WRITER write/decode vs ShardWriterNP / ShardWriterFlatBuffer / ShardWriterTFRec", "theorem": "Sedpack.Writer.C18_npz_decodes_accepted / C18_fb_decodes_accepted / C18_tfrec_decodes_accepted",
+                    "cases": corr_bad[:3]}, name="corr_writer", nofail=True)
+    return {"writer_runs": len(res), "writer_calls": sum(len(r["steps"]) for r in res), "writer_corr_mismatches": len(corr_bad), "writer_defect_kinds": dict(kinds_seen)}
+
+
 def run(ctx):
+    wl = writer_level(ctx)
     cases = F.explore(ctx, "C18")
     for c in cases:
         oracle(ctx, c)
     F.finish(ctx, "C18", cases, "Sedpack.Fill.C18_reject_no_trace")
+    ctx.cov.update(wl)
+    ctx.cov["evaluations"] = ctx.cov.get("evaluations", 0) + wl["writer_runs"]
+    ctx.cov["traces_validated_against_impl"] = ctx.cov.get("traces_validated_against_impl", 0) + wl["writer_runs"] - wl["writer_corr_mismatches"]
